@@ -180,6 +180,35 @@ CLAIMS.update({
          'of abg-corpus-priv.h are not decided.', '5 C27'),
 })
 
+CLAIMS.update({
+ 'C32': ('proof',
+         'Safety part. Real worker::wait_to_execute_a_task (worker loop closed by an inductive loop contract, partial correctness), '
+         'queue::priv::schedule_task and do_bring_workers_down over a monitor model of POSIX threads seen from one thread: tasks_todo '
+         'is only touched under tasks_todo_mutex, tasks_done and the completion notifier only under tasks_done_mutex (hence the '
+         'notifier never runs concurrently with itself); no mutex is locked twice, unlocked when not held or still held at the end '
+         'of an iteration; a task taken from the queue is performed once, appended to the completed tasks once, notified once and '
+         'signalled once before the worker takes another one; a scheduled task is queued exactly once; every worker is joined once.',
+         'That wait_for_workers_to_complete always returns (liveness, lost wake-ups) is NOT decided: executions in which a '
+         'condition wait never returns are not followed. The step from one thread\'s view to all interleavings is the standard '
+         'monitor argument, outside the verifier. pthread semantics are a model. do_bring_workers_down is bounded in the number of '
+         'workers (<= 2).', '5 C32'),
+ 'C40': ('proof',
+         'Real fnv_hash (strings of any length, inductive loop contract against a reference accumulator written from the FNV '
+         'specification): the result is the 32-bit FNV-1a hash of the bytes, read once each, in order - a function of the characters '
+         'only. Real HASH_TYPE_ID_STYLE case of write_context::get_id_for_type (set of used ids of any finite size, loop contract '
+         'with termination): the id is computed from the INTERNAL name; it is fnv_hash(name) when that number is free in the '
+         'document, otherwise the first free successor (probes fnv, fnv+1, ...).',
+         'get_cached_pretty_representation, the set of used ids, hex formatting and interning are stubs; that equal types have equal '
+         'internal names is not decided.', '5 C40'),
+ 'C42': ('proof',
+         'Real class interned_string, hash_interned_string, interned_string_pool::create_string and the free operator==/!= for '
+         'every pair of contents interned in one pool and every plain string: identical objects <=> equal contents; ==, !=, <, '
+         'empty(), conversion back to std::string and comparisons with plain strings (both operand orders) agree with the contents; '
+         'equal strings hash alike; interning is idempotent.',
+         'std::string is an abstract value (identity = content, id order = operator<); unordered_map is a functional map tracking '
+         'two keys; std::hash<size_t> is the identity. environment::intern (a forwarding call) is not extracted.', '5 C42'),
+})
+
 NA = {
  'C01': 'rests on reflexivity of ~40 mutually recursive equals() overloads, canonicalisation and DIE de-duplication over arbitrary type graphs (abg-ir.cc, abg-dwarf-reader.cc); outside the C++ subset CBMC 6.11 parses and not expressible as a contract on any reachable function',
  'C02': 'writer/reader pair over the whole IR and libxml2 trees; outside front-end reach (attribute escaping is claimed under C04)',
